@@ -131,11 +131,14 @@ CLAIMED["C09"] = dict(
 CLAIMED["C07"] = dict(
     text="The listener machine has a frame stack: an include line pushes a nested listener frame on the file resolved against the including file's "
          "directory, its completion registers the program (and its own includes) by name, and a statement naming a registered program expands to its "
-         "operations. TLC explores 6 include layouts x call sequences over a 5-file tree and checks Load(main, fs) = Load(Inline(main)) (callee modes "
-         "in increasing order, parameters bound, every call a fresh copy), that the registry equals the transitive closure of includes, and that "
-         "ill-formed calls are refused. Each case is materialised in a scratch tree and loaded from 3 working directories (relative/absolute load "
-         "path) and the inlined text is loaded too; all compared with the specification.",
-    note="Trusted: TLC, renderer. Callee programs without measured registers; 5 files, nesting depth 2, up to 2 (thorough 3) items per main script.",
+         "operations. TLC explores 11 include layouts (same directory, sub-directory, sibling via '..', absolute, repeated and equally written include "
+         "lines, nesting, a directory that is a symbolic link) x call sequences over a 13-file tree and evaluates in every final state "
+         "Load(main, fs) = Load(Inline(main)) (callee modes in increasing order, parameters bound - also to measured registers -, every call a fresh "
+         "copy) and that ill-formed calls are refused (both printed with the case, required TRUE), and checks that the registry equals the transitive "
+         "closure of includes. Each case is materialised in a scratch tree and loaded from 3 working directories (relative/absolute load path) and "
+         "the inlined text is loaded too; plus random include trees (libraries in three directories, libraries calling libraries) with Trace_Load "
+         "as oracle and validator of the recorded listener trace; all compared with the specification.",
+    note="Trusted: TLC, renderer. Callee programs without measured-register arguments of their own; nesting depth 2, up to 2 (thorough 3) items per main script.",
     technique="TLC listener-machine model with include frames (include = inlining as a spec equality) + file-system replay under several working directories",
     design="7/C07")
 
@@ -161,8 +164,8 @@ CLAIMED["C17"] = dict(
 
 CLAIMED["C13"] = dict(
     text="BBObjects models programs as objects over a heap of mutable cells (operation dicts, argument lists, keyword dicts, arrays, variable and option dicts, feed-forward transforms). "
-         "TLC explores every history of API calls (dumps, attribute reads, to_DiGraph, match_template, template calls creating instances, eight kinds "
-         "of mutation of an instance incl. the register list of a feed-forward argument) up to a depth and checks the action properties Pure (read-only actions leave the content of every object "
+         "TLC explores every history of API calls (dumps, attribute reads, to_DiGraph, match_template, template calls creating instances - each handed the caller's own array object -, nine kinds "
+         "of mutation of an instance incl. the register list of a feed-forward argument and an element of an array argument) up to a depth and checks the action properties Pure (read-only actions leave the content of every object "
          "unchanged) and OnlyTargetChanges, and the invariant Independent (no cell reachable from two objects); two teeth runs (to_DiGraph filling "
          "missing args; shallow instances) must yield counterexamples. Every history is replayed on real objects with a deep digest (structure + "
          "dumps text) of every live object after every action, and final contents are compared with the specification's heap.",
